@@ -142,7 +142,8 @@ fn purge_partition_model(p: &mut MPartition) {
     p.first_retained = 0;
     p.consumer_offsets.clear();
     p.group_offsets.clear();
-    p.dedup_ids.clear();
+    let forgotten = std::mem::take(&mut p.dedup_ids);
+    p.purged_ids.extend(forgotten);
     p.tainted = false;
 }
 
